@@ -6,10 +6,12 @@ from common import R, Rvec, Cx, fl, cfl
 
 from common import wiring_pre_build as pre_build  # noqa: E402,F401
 
-LEAN_MODULES = ["PyomaVerif.Props.C06", "PyomaVerif.Mutants.C06", "PyomaVerif.Props.WiringMpe", "PyomaVerif.Props.C06C13"]
+LEAN_MODULES = ["PyomaVerif.Props.C06", "PyomaVerif.Mutants.C06", "PyomaVerif.Props.WiringMpe", "PyomaVerif.Props.C06C13", "PyomaVerif.Props.WiringStore", "PyomaVerif.Props.WiringClass"]
 THEOREMS = [
     # call-site wiring of the class layer, regenerated from /repo on every run (translate_wiring.py)
     "PV.WiringMpe.C06_fdd_mpe_wiring",
+    "PV.WiringStore.C06_run_result_store",
+    "PV.WiringClass.C06_inherited",
     "PV.C06.C06_band_limits",
     "PV.C06.pickIdx_spec",
     "PV.C06.C06_pick",
